@@ -119,6 +119,8 @@ def _gen_fun(col, rule="C13.R3"):
             "the `def` executes with a locals mapping of its own: executed in the globals alone it rebinds its name there, and a container whose "
             "label equals the function name is no longer reachable from the body", "exec(source, globals) binds the function in globals" if not separate else "")
     want_src = ("call", ("attr", S.SELF, "mk_fun"), (name_p,), (("**", kw),))
+    if S.is_call_of(m["src"], ("glob", "compile")) and len(m["src"][2]) >= 3 and m["src"][2][2] in (("const", "'exec'"), ("const", '"exec"')):
+        m = dict(m, src=m["src"][2][0])          # exec(compile(text, name, "exec"), ...) executes that text
     col.add(rule, f"{q}#source-from-mk_fun", m["src"] == want_src, sx.loc(ev),
             "gen_fun compiles exactly mk_fun(name, **kwargs): the text executed is mk_fun's text, unmodified", S.show(m["src"]))
     cont = S.sattr("containers")
